@@ -443,6 +443,13 @@ Example ex_indexer :
   ix_run false 50000 (mk_ix 0 0) [IxFinalize] = 1%N.
 Proof. intros -> ->. repeat split; vm_compute; reflexivity. Qed.
 
+(* ------------------------------------------------------------------ the dry-run flag on its way *)
+Lemma dry_flag_flows_unchanged_lemma : forallb snd dry_flag_flow = true.
+Proof. vm_compute; reflexivity. Qed.
+
+Lemma tree_modifier_writes_dry_guarded_lemma : tree_modifier_dry_guarded = true.
+Proof. reflexivity. Qed.
+
 (* ------------------------------------------------------------------ examples (non-vacuity) *)
 Definition ex_hash (d : N) : id := (1000 + d)%N.
 
